@@ -38,3 +38,19 @@ Proof. intros. unfold len. lia. Qed.
 
 Lemma bind_val : forall (A B : Type) (a : A) (f : A -> outcome B), bind (Val a) f = f a.
 Proof. reflexivity. Qed.
+
+(* N and Z bit operations agree on the naturals (the hand-written models of some properties are over N) *)
+Lemma of_N_lor : forall a b, Z.of_N (N.lor a b) = Z.lor (Z.of_N a) (Z.of_N b).
+Proof. intros [|a] [|b]; reflexivity. Qed.
+Lemma of_N_land : forall a b, Z.of_N (N.land a b) = Z.land (Z.of_N a) (Z.of_N b).
+Proof. intros [|a] [|b]; reflexivity. Qed.
+Lemma of_N_shiftl : forall a n, Z.of_N (N.shiftl a n) = Z.shiftl (Z.of_N a) (Z.of_N n).
+Proof.
+  intros a n. rewrite N.shiftl_mul_pow2, Z.shiftl_mul_pow2 by lia.
+  rewrite N2Z.inj_mul, N2Z.inj_pow. reflexivity.
+Qed.
+Lemma of_N_shiftr : forall a n, Z.of_N (N.shiftr a n) = Z.shiftr (Z.of_N a) (Z.of_N n).
+Proof.
+  intros a n. rewrite N.shiftr_div_pow2, Z.shiftr_div_pow2 by lia.
+  rewrite N2Z.inj_div, N2Z.inj_pow. reflexivity.
+Qed.
